@@ -86,6 +86,19 @@ CHECKS["C18"] = (
     "DESIGN.md 2/C18",
 )
 
+CHECKS["C05"] = (
+    "deviation-bounded exhaustive exploration of surface renderings on the real loads (0, 1, thorough 2 deviations + 13 uniform renderings), uniform gap perturbation of the formatted corpus, LALR contexts in upper vs lower case",
+    "For every base document (S1, S4, rich documents; S2 with the uniform renderings; thorough adds S2/S3 with single and S1/S4 with double deviations) every rendering that deviates from the canonical one at one site - keyword case (3 policies per keyword token incl. block names and END), separator kind per gap (9 kinds incl. CRLF, form feed, # and /* */ comments, glued comment), quote character per quote-free string, bare vs quoted for identifier-like strings - is loaded by the real code and must give exactly the canonical dictionary; all 451 formatted corpus files are re-tokenised by my lexer and re-joined with 8 uniform separators; every LALR context (top-2) completed to a sentence is compared in upper vs lower/alternating case of structural keywords.",
+    "Trusted: mcf/docmodel.render and mcf/reader.lex. Value words and expression word operators are not case-varied.",
+    "DESIGN.md 2/C05, 1.4, 1.7",
+)
+CHECKS["C11"] = (
+    "bounded exhaustive exploration of the real loads over LALR parser contexts x terminals (contexts extracted from the table the running implementation built), exhaustive single token-level mutations, token soups, unterminated openers, root types, pumped families with bounded growth measurement",
+    "Every context of the real LALR table (top-2, thorough top-3 of the state stack, reached by BFS with Lark's InteractiveParser) x every terminal x lexeme variants, each accepted one extended by two completions; every single-token delete/duplicate/swap/truncate/replace/insert (45 lexemes) and every unterminated opener (10 kinds, spaced and glued) at every token position of ~190 seeds; every token soup of length <= 3 (thorough 4) over 25 lexemes; every block type as root; 30 pumped families at N..8N. Each text goes through the real loads: the outcome must be a dict/list or a LarkError whose line/column lies inside the text (exactly at the offending character for an inserted '@'); no execution may exceed the horizon; load time must not grow super-linearly.",
+    "Trusted: Lark's InteractiveParser for enumerating contexts only. Timing is decided by measurement with wide margins (ratio > 24 for an 8x size step, t >= 0.2 s, confirmed twice). OSError/ValueError from INCLUDE lines accepted (C15).",
+    "DESIGN.md 2/C11, 1.7",
+)
+
 NOT_YET = {}
 
 
